@@ -131,3 +131,49 @@ fn k_nom_tag_take_anychar() {
         assert!(matches!(r3, Err(nom::Err::Error(_))));
     }
 }
+
+/// combinator glue (opt, alt, peek, verify, terminated, delimited, map) over one-byte parsers, buffers of 0..=4 bytes
+#[kani::proof]
+#[kani::unwind(6)]
+fn k_nom_glue() {
+    use nom::branch::alt;
+    use nom::bytes::complete::{tag, take};
+    use nom::combinator::{map, opt, peek, verify};
+    use nom::sequence::{delimited, terminated};
+    let buf: [u8; 4] = kani::any();
+    let n: usize = kani::any();
+    kani::assume(n <= 4);
+    let i = &buf[..n];
+    // opt: never fails on a recoverable error; Some exactly when the inner parser succeeds; input untouched otherwise
+    let r: IResult<&[u8], Option<&[u8]>, SE> = opt(tag(","))(i);
+    let (rest, o) = r.unwrap();
+    if n >= 1 && buf[0] == b',' { assert!(o.is_some() && rest.len() == n - 1); } else { assert!(o.is_none() && rest.len() == n); }
+    // alt: first success wins, both failing is a recoverable error
+    let r: IResult<&[u8], &[u8], SE> = alt((tag("!"), tag("$")))(i);
+    if n >= 1 && (buf[0] == b'!' || buf[0] == b'$') { let (rest, _t) = r.unwrap(); assert!(rest.len() == n - 1); } else { assert!(matches!(r, Err(nom::Err::Error(_)))); }
+    // peek: value of the inner parser, input not consumed
+    let r: IResult<&[u8], &[u8], SE> = peek(take(2u8))(i);
+    if n >= 2 { let (rest, t) = r.unwrap(); assert!(rest.len() == n && t.len() == 2 && t[0] == buf[0]); } else { assert!(r.is_err()); }
+    // verify: inner result kept exactly when the predicate holds, recoverable error otherwise
+    let r: IResult<&[u8], &[u8], SE> = verify(take(1u8), |b: &[u8]| b[0] < 6)(i);
+    if n >= 1 && buf[0] < 6 { let (rest, t) = r.unwrap(); assert!(rest.len() == n - 1 && t[0] == buf[0]); } else { assert!(matches!(r, Err(nom::Err::Error(_)))); }
+    // terminated / delimited: sequence, value of the designated component
+    let r: IResult<&[u8], &[u8], SE> = terminated(take(1u8), tag("*"))(i);
+    if n >= 2 && buf[1] == b'*' { let (rest, t) = r.unwrap(); assert!(rest.len() == n - 2 && t[0] == buf[0]); } else { assert!(r.is_err()); }
+    let r: IResult<&[u8], &[u8], SE> = delimited(tag("\\"), take(1u8), tag("\\"))(i);
+    if n >= 3 && buf[0] == b'\\' && buf[2] == b'\\' { let (rest, t) = r.unwrap(); assert!(rest.len() == n - 3 && t[0] == buf[1]); } else { assert!(r.is_err()); }
+    // map: function applied to the inner value, same rest
+    let r: IResult<&[u8], u8, SE> = map(take(1u8), |b: &[u8]| b[0] ^ 0x55)(i);
+    if n >= 1 { let (rest, v) = r.unwrap(); assert!(v == buf[0] ^ 0x55 && rest.len() == n - 1); } else { assert!(r.is_err()); }
+}
+
+/// bits(): runs the bit parser from bit 0 of the byte input; Ok/Err and value carried over
+#[kani::proof]
+#[kani::unwind(8)]
+fn k_nom_bits() {
+    let buf: [u8; 2] = kani::any();
+    let n: usize = kani::any();
+    kani::assume(n <= 2);
+    let r: IResult<&[u8], u8, SE> = nom::bits::bits::<_, _, BE, _, _>(nom::bits::complete::take::<_, u8, _, _>(6usize))(&buf[..n]);
+    if n >= 1 { let (_rest, v) = r.unwrap(); assert!(v == buf[0] >> 2); } else { assert!(matches!(r, Err(nom::Err::Error(_)))); }
+}
